@@ -85,6 +85,18 @@ def deep_narrow(tier, prefix):
     return out
 
 
+def longdur_space(tier, prefix, alpha):
+    """The longest durations the builders accept: ttl / tti of exactly 1000 years (two
+    ticks of 500 years), the clock moving by centuries."""
+    thorough = tier == "thorough"
+    out = []
+    for kind in ("U", "S"):
+        for cap, ex in itertools.product(["none", 2], [dict(ttl=2), dict(tti=2), dict(ttl=2, tti=2)]):
+            kw = dict(dict(kind=kind, cap=cap, w=0, hash="spread", alpha=alpha, keys=2, D=8 if thorough else 6, Q=2, A=3, tick=15768000000000, beyond=1), **ex)
+            out.append(seqjob(name(prefix + "longdur", kw), **kw))
+    return out
+
+
 def expiry_space(tier, prop):
     thorough = tier == "thorough"
     out = []
@@ -331,8 +343,18 @@ def jobs_for(prop, tier):
         j = j + from_full(prop, tier)
     if prop in ("C01", "C03", "C05", "C06", "C10", "C11", "C16"):
         j = j + deep_narrow(tier, prop.lower())
+    if prop in ("C03", "C05", "C06"):
+        j = j + longdur_space(tier, prop.lower(), "basic" if prop == "C03" else "expiry")
     if prop in ("C04", "C08", "C10", "C12", "C13"):
         j = j + bigw_space(tier)
+    # scale scenarios with u32 keys (E1c): more evictions than one batch, more consecutive
+    # invalidations than the write log holds, 70 000 entries of weight u32::MAX
+    if prop in ("C04", "C10"):
+        j = j + [{"id": "scalex-bigexcess", "argv": ["scalex", "bigexcess"]}]
+    if prop in ("C09", "C10"):
+        j = j + [{"id": "scalex-invalidate-burst", "argv": ["scalex", "invalidate-burst"]}]
+    if prop in ("C08", "C10", "C04", "C03"):
+        j = j + [{"id": "scalex-hugeweights", "argv": ["scalex", "hugeweights"]}]
     if prop in ("C01", "C07", "C12", "C13", "C10", "C11"):
         j = j + scripted()
     # long scripted histories through the same per-step oracles (thresholds beyond any
@@ -353,12 +375,13 @@ def jobs_for(prop, tier):
     if prop == "C02":
         j = sched("c02", tier, b, 16) + sched("c02w", tier, b, 8) + sched("c02x", tier, b, 4) + sched("c02t", tier, b, 8) + sched("c07", tier, b, 2) + sched("c16", tier, b, 2) + loom + gen
     elif prop == "C09":
-        j = sched("c09", tier, 2 if thorough else 1, 8, 20000) + sched("c02", tier, 2, 16) + sched("c07", tier, 2, 2) + gen
+        j = sched("c09", tier, 2 if thorough else 1, 8, 20000) + sched("c02", tier, 2, 16) + sched("c07", tier, 2, 2) + sched("rdfull", tier, 1, 2, 20000) + gen
         # a single thread under the single-thread scheduler (E1): a lock the caller holds
         # itself, a retry loop waiting for nobody, an unbounded loop inside one call are
         # violations instead of hangs; every call sequence of the C01 space (sync cache)
         j = j + c01_space(tier, kinds=("S",), caps=["none", 1], weighers=(0,), with_collide=False, prefix="c09",
                           dS=7 if thorough else 5, a=2)
+        j = j + [{"id": "scalex-invalidate-burst", "argv": ["scalex", "invalidate-burst"]}]
     elif prop == "C07":
         j = j + sched("c07", tier, b, 4) + sched("c02x", tier, b, 4) + loom + gen
     elif prop == "C16":
@@ -367,6 +390,8 @@ def jobs_for(prop, tier):
         j = j + sched("c04", tier, 2, 6) + [{"id": "overshoot", "argv": ["overshoot"]}] + nodebug(sched("c04", tier, 2, 6))
     elif prop in ("C03", "C08", "C10", "C11"):
         j = j + sched("c02", tier, 2, 16) + sched("c02w", tier, 2, 8) + sched("c02x", tier, 2, 4) + gen
+        if prop == "C08":
+            j = j + sched("rdfull", tier, 1, 2, 20000)
         if prop == "C10":
             j = j + nodebug(sched("c04", tier, 2, 6))
     elif prop == "C06":
